@@ -137,6 +137,13 @@ def run(ids):
                     break
             entry["detected"] = any(entry.get(t, {}).get("exit") == 1 for t in ("quick", "thorough"))
             entry["detected_by"] = next((t for t in ("quick", "thorough") if entry.get(t, {}).get("exit") == 1), None)
+            # a change written against property X may break the component another property's check models (the red team
+            # chooses the place freely): meta.json's "also_check" names those properties; their verdict is recorded
+            # separately and never counted as a detection by X's own check
+            if not entry["detected"]:
+                for other in json.load(open(os.path.join(d, "meta.json"))).get("also_check", []):
+                    rc2, out2 = sh(f"{ROOT}/check {other} --tier quick", timeout=7200)
+                    entry.setdefault("other", {})[other] = {"exit": rc2, "lines": [l for l in out2.splitlines() if l.startswith("VIOLATION") or "failing input" in l][:4]}
         finally:
             rc_, out_ = sh(f"git -C {REPO} checkout -- . && git -C {REPO} clean -fdq")
             if rc_ != 0:    # a snapshot that is not a git tree
